@@ -19,6 +19,31 @@ pub struct Case {
     pub version: u8,
     /// generated garbage appended to the valid file (1-16 bytes)
     pub suffix: Vec<u8>,
+    /// add 300 terms with 200-byte names and records with more than 256 terms: sections
+    /// longer than 65_535 bytes; truncation offsets are then sampled, not enumerated
+    #[serde(default)]
+    pub big: bool,
+}
+
+/// `facts` plus 300 terms below HP:0000118 with long names, one gene and one OMIM disease
+/// annotated to all of them
+pub fn inflate(f: &Facts) -> Facts {
+    let mut g = f.clone();
+    let used: std::collections::BTreeSet<u32> = g.terms.iter().map(|t| t.id).collect();
+    let mut id = 2_000_000u32;
+    let mut added = Vec::new();
+    while added.len() < 300 {
+        if !used.contains(&id) {
+            g.terms.push(TermFact { id, name: format!("{id:0>200}"), obsolete: false, replacement: None });
+            g.edges.push((id, 118));
+            added.push(id);
+        }
+        id += 7;
+    }
+    g.recs[GENE].push(RecFact { id: 4_000_000, name: "BIG".into(), terms: added.clone() });
+    g.recs[OMIM].push(RecFact { id: 4_000_000, name: "big disease".into(), terms: added });
+    g.ann_calls = g.canonical_ann_calls();
+    g
 }
 
 fn accepted(bytes: &[u8], stats: &mut Stats) -> bool {
@@ -39,8 +64,15 @@ fn accepted(bytes: &[u8], stats: &mut Stats) -> bool {
 pub fn check(c: &Case, stats: &mut Stats) -> CheckResult {
     let v = c.version;
     ensure!((1..=3).contains(&v), "harness/bad-case", "version must be 1..=3");
-    let expected = restrict_to_version(&c.facts, v);
-    let bytes = encode(&c.facts, v);
+    let inflated;
+    let facts: &Facts = if c.big {
+        inflated = inflate(&c.facts);
+        &inflated
+    } else {
+        &c.facts
+    };
+    let expected = restrict_to_version(facts, v);
+    let bytes = encode(facts, v);
     // ---- Oracle A: the file decodes to exactly the ontology it describes
     let ont = match decode(&bytes) {
         Decoded::Ok(o) => *o,
@@ -60,7 +92,28 @@ pub fn check(c: &Case, stats: &mut Stats) -> CheckResult {
         );
     }
     // ---- Oracle B: every proper prefix is rejected
-    for cut in 0..bytes.len() {
+    let cuts: Vec<usize> = if bytes.len() <= 6000 {
+        (0..bytes.len()).collect()
+    } else {
+        // large file: every section boundary +-4, the last 64 offsets, 256 evenly spread offsets
+        let mut v: std::collections::BTreeSet<usize> = std::collections::BTreeSet::new();
+        for o in section_offsets(&bytes, c.version) {
+            for d in 0..9usize {
+                v.insert((o + d).saturating_sub(4));
+            }
+        }
+        for d in 1..=64 {
+            v.insert(bytes.len() - d);
+        }
+        for i in 0..256 {
+            v.insert(i * bytes.len() / 256);
+        }
+        v.into_iter().filter(|x| *x < bytes.len()).collect()
+    };
+    if bytes.len() > 65_535 {
+        stats.label("section>65535-bytes");
+    }
+    for cut in cuts.iter().copied() {
         if accepted(&bytes[..cut], stats) {
             let offs = section_offsets(&bytes, v);
             return fail(
@@ -69,7 +122,7 @@ pub fn check(c: &Case, stats: &mut Stats) -> CheckResult {
             );
         }
     }
-    stats.count("truncations", bytes.len() as u64);
+    stats.count("truncations", cuts.len() as u64);
     // ---- extensions
     let offs = section_offsets(&bytes, v);
     let last_section = bytes[*offs.last().unwrap()..].to_vec();
@@ -111,9 +164,9 @@ pub fn check(c: &Case, stats: &mut Stats) -> CheckResult {
             continue;
         }
         let mut with_date = vec![b'H', b'P', b'O', ver];
-        with_date.extend_from_slice(&c.facts.version.0.to_be_bytes());
-        with_date.push(c.facts.version.1);
-        with_date.push(c.facts.version.2);
+        with_date.extend_from_slice(&facts.version.0.to_be_bytes());
+        with_date.push(facts.version.1);
+        with_date.push(facts.version.2);
         with_date.extend_from_slice(body);
         let mut without_date = vec![b'H', b'P', b'O', ver];
         without_date.extend_from_slice(body);
@@ -155,8 +208,8 @@ pub fn check(c: &Case, stats: &mut Stats) -> CheckResult {
 fn strategy(tier: Tier) -> BoxedStrategy<Case> {
     let (maxt, maxr) = if tier == Tier::Quick { (14, 4) } else { (30, 6) };
     let cfg = GenCfg::small().terms(2, maxt).recs(maxr).standard().with_flags(true).names(NameMode::Capped);
-    (gen::facts(cfg), 1u8..=3, vec(any::<u8>(), 1..=16))
-        .prop_map(|(mut facts, version, suffix)| {
+    (gen::facts(cfg), 1u8..=3, vec(any::<u8>(), 1..=16), proptest::bool::weighted(0.01))
+        .prop_map(|(mut facts, version, suffix, big)| {
             // keep files small: the truncation sweep decodes every prefix
             for t in facts.terms.iter_mut() {
                 if t.name.len() > 40 {
@@ -170,7 +223,7 @@ fn strategy(tier: Tier) -> BoxedStrategy<Case> {
                     }
                 }
             }
-            Case { facts, version, suffix }
+            Case { facts, version, suffix, big }
         })
         .boxed()
 }
@@ -183,7 +236,7 @@ impl Property for C08 {
         "fault_enumeration"
     }
     fn rule(&self) -> String {
-        "Generated: facts restricted to what format version v in {1,2,3} can express, encoded by an independent encoder written from the documented layout (not as_bytes), records in generated order inside each section. Oracle A: from_bytes(file) is Ok and its complete read-API snapshot equals the reference model of the facts (v1: version 0000-00-00, no flags/replacements/ORPHA; v2: no ORPHA). Oracle B (fault enumeration per file): EVERY truncation offset 0..len-1 is decoded and must be rejected (Err or panic, never Ok); 8 extensions (bytes 00/01/ff, an empty section, two empty sections, a copy of the last section, a well-formed one-record disease section, 1-16 generated bytes) must be rejected; with the HPO magic every version byte other than 2 and 3, in front of the file's sections with and without a release-version field (508 variants per file), must give Err (not a panic, not an ontology). evaluations = decodes. Non-trivial = file with >=1 record in every annotation section it has and >=1 parent link; distinct = hash(canonical facts, version).".into()
+        "Generated: facts restricted to what format version v in {1,2,3} can express, encoded by an independent encoder written from the documented layout (not as_bytes), records in generated order inside each section. Oracle A: from_bytes(file) is Ok and its complete read-API snapshot equals the reference model of the facts (v1: version 0000-00-00, no flags/replacements/ORPHA; v2: no ORPHA). One file in 100 is inflated by 300 terms with 200-byte names and two records annotated to all of them (sections longer than 65 535 bytes, records with more than 256 terms); for those files the truncation offsets are sampled (every section boundary +-4, the last 64 offsets, 256 evenly spread ones). Oracle B (fault enumeration per file): EVERY truncation offset 0..len-1 is decoded and must be rejected (Err or panic, never Ok); 8 extensions (bytes 00/01/ff, an empty section, two empty sections, a copy of the last section, a well-formed one-record disease section, 1-16 generated bytes) must be rejected; with the HPO magic every version byte other than 2 and 3, in front of the file's sections with and without a release-version field (508 variants per file), must give Err (not a panic, not an ontology). evaluations = decodes. Non-trivial = file with >=1 record in every annotation section it has and >=1 parent link; distinct = hash(canonical facts, version).".into()
     }
     fn assumptions(&self) -> Vec<String> {
         vec![
@@ -198,7 +251,7 @@ impl Property for C08 {
         }
     }
     fn required_labels(&self, _tier: Tier) -> Vec<&'static str> {
-        vec!["nontrivial", "v1", "v2", "v3", "flags"]
+        vec!["nontrivial", "v1", "v2", "v3", "flags", "section>65535-bytes"]
     }
     fn run_generated(&self, tier: Tier, seed: u64, n: u64, stats: &mut Stats) -> Option<(Value, Failure)> {
         run_typed(strategy(tier), seed, n, stats, check)
